@@ -43,6 +43,15 @@ def generate():
             forms = ["rank = %s" % r, "rank(%s)" % r, 'rank = "%s"' % r, 'rank("%s")' % r]
             for label, mk, shape in field_hosts(["#[educe(%s)]" % t]):
                 yield ("rank spellings", [mk("#[educe(%s(%s))]" % (t, f), 2) for f in forms])
+        # the limits of isize, with another parameter after / before the rank (field 0 gets an explicit rank so that
+        # isize::MIN, its default, stays free)
+        for r in ["-9223372036854775808", "9223372036854775807", "-1"]:
+            forms = ["rank = %s" % r, "rank(%s)" % r, 'rank = "%s"' % r, 'rank("%s")' % r]
+            for pre, post in [("", ""), ("", ", method = m"), ("", ", ignore = false"), ("method(m), ", "")]:
+                for shape in SHAPES:
+                    fs0 = with_attr(plain_fields(shape, 3, "u8"), 0, "#[educe(%s(rank = 5))]" % t)
+                    yield ("rank spellings (limits of isize, next to other parameters)",
+                           [item("struct", "S", ["#[educe(%s)]" % t], [("", shape, [], with_attr(fs0, 2, "#[educe(%s(%s%s%s))]" % (t, pre, f, post)))]) for f in forms])
         # both traits educed: the attribute may be carried by either
         for label, mk, shape in field_hosts(["#[educe(PartialOrd, Ord)]"]):
             yield ("Ord/PartialOrd carrier", [mk("#[educe(%s(rank = 1, method(m)))]" % c, 1) for c in ("Ord", "PartialOrd")])
